@@ -1,4 +1,213 @@
-//! spec -> implementation replay drivers (filled in per component).
-pub fn replay_cmd(_args: &[String]) {
-    unimplemented!("replay")
+//! spec -> implementation replay: TLC prints the complete labelled state graph
+//! of a model ("INIT|key|obs" and "EDGE|from|op|to|obs" lines); for every
+//! transition the driver executes a shortest operation path from the initial
+//! state plus the transition's operation on a FRESH real object and compares
+//! the projected observation after every operation with the model's.
+
+use std::collections::{HashMap, VecDeque};
+use std::io::BufRead;
+
+use serde_json::{json, Value};
+
+use crate::{get_arg, has_flag};
+
+pub trait Target {
+    /// a fresh object; returns its observation
+    fn reset(&mut self) -> Value;
+    /// applies one operation; returns the observation afterwards
+    fn apply(&mut self, op: &Value) -> Value;
+}
+
+struct Edge {
+    from: usize,
+    op: Value,
+    to: usize,
+    obs: Value,
+}
+
+pub struct Graph {
+    keys: HashMap<String, usize>,
+    init: usize,
+    init_obs: Value,
+    edges: Vec<Edge>,
+    obs_of: Vec<Option<Value>>,
+}
+
+pub fn unescape(s: &str) -> String {
+    s.replace("\\\"", "\"").replace("\\\\", "\\")
+}
+
+pub fn read_graph(path: &str) -> Graph {
+    let f = std::io::BufReader::new(std::fs::File::open(path).expect("graph file"));
+    let mut keys: HashMap<String, usize> = HashMap::new();
+    let mut edges = Vec::new();
+    let mut init = usize::MAX;
+    let mut init_obs = Value::Null;
+    let mut obs_of: Vec<Option<Value>> = Vec::new();
+    let mut id_of = |k: &str, obs_of: &mut Vec<Option<Value>>| -> usize {
+        if let Some(&i) = keys.get(k) {
+            return i;
+        }
+        let i = keys.len();
+        keys.insert(k.to_string(), i);
+        obs_of.push(None);
+        i
+    };
+    for line in f.lines() {
+        let line = line.unwrap();
+        if !(line.starts_with("\"EDGE|") || line.starts_with("\"INIT|")) {
+            continue;
+        }
+        let body = unescape(&line[1..line.len() - 1]);
+        let parts: Vec<&str> = body.split('|').collect();
+        if parts[0] == "INIT" {
+            init = id_of(parts[1], &mut obs_of);
+            init_obs = serde_json::from_str(parts[2]).expect("init obs");
+            obs_of[init] = Some(init_obs.clone());
+        } else {
+            let from = id_of(parts[1], &mut obs_of);
+            let op: Value = serde_json::from_str(parts[2]).expect("op");
+            let to = id_of(parts[3], &mut obs_of);
+            let obs: Value = serde_json::from_str(parts[4]).expect("obs");
+            obs_of[to] = Some(obs.clone());
+            edges.push(Edge { from, op, to, obs });
+        }
+    }
+    drop(id_of);
+    Graph {
+        keys,
+        init,
+        init_obs,
+        edges,
+        obs_of,
+    }
+}
+
+pub struct ReplayReport {
+    pub states: usize,
+    pub edges: usize,
+    pub ops_executed: usize,
+    pub mismatches: Vec<Value>,
+    pub samples: Vec<Value>,
+}
+
+pub fn replay(g: &Graph, t: &mut dyn Target, max_report: usize) -> ReplayReport {
+    // BFS tree from the initial state: parent edge of every state
+    let n = g.keys.len();
+    let mut parent: Vec<Option<usize>> = vec![None; n];
+    let mut seen = vec![false; n];
+    let mut out: Vec<Vec<usize>> = vec![Vec::new(); n];
+    for (i, e) in g.edges.iter().enumerate() {
+        out[e.from].push(i);
+    }
+    let mut q = VecDeque::new();
+    seen[g.init] = true;
+    q.push_back(g.init);
+    while let Some(s) = q.pop_front() {
+        for &ei in &out[s] {
+            let e = &g.edges[ei];
+            if !seen[e.to] {
+                seen[e.to] = true;
+                parent[e.to] = Some(ei);
+                q.push_back(e.to);
+            }
+        }
+    }
+    let path_to = |s: usize| -> Vec<usize> {
+        let mut p = Vec::new();
+        let mut cur = s;
+        while let Some(ei) = parent[cur] {
+            p.push(ei);
+            cur = g.edges[ei].from;
+        }
+        p.reverse();
+        p
+    };
+    let mut rep = ReplayReport {
+        states: n,
+        edges: g.edges.len(),
+        ops_executed: 0,
+        mismatches: Vec::new(),
+        samples: Vec::new(),
+    };
+    for (ei, e) in g.edges.iter().enumerate() {
+        if !seen[e.from] {
+            continue;
+        }
+        let mut ops: Vec<&Value> = Vec::new();
+        let mut expected: Vec<&Value> = Vec::new();
+        for pe in path_to(e.from) {
+            ops.push(&g.edges[pe].op);
+            expected.push(&g.edges[pe].obs);
+        }
+        ops.push(&e.op);
+        expected.push(&e.obs);
+        let r = std::panic::catch_unwind(std::panic::AssertUnwindSafe(|| {
+            let o0 = t.reset();
+            if o0 != g.init_obs {
+                return Some((0usize, g.init_obs.clone(), o0));
+            }
+            for (i, op) in ops.iter().enumerate() {
+                let o = t.apply(op);
+                if &o != expected[i] {
+                    return Some((i + 1, expected[i].clone(), o));
+                }
+            }
+            None
+        }));
+        rep.ops_executed += ops.len();
+        let bad = match r {
+            Ok(None) => None,
+            Ok(Some((at, exp, act))) => Some(json!({"at_op": at, "expected": exp, "actual": act})),
+            Err(_) => Some(json!({"at_op": -1, "expected": "no panic", "actual": "panic"})),
+        };
+        if let Some(mut b) = bad {
+            if rep.mismatches.len() < max_report {
+                b["ops"] = json!(ops);
+                b["edge"] = json!(ei);
+                rep.mismatches.push(b);
+            } else {
+                rep.mismatches.push(Value::Null);
+            }
+        }
+        if rep.samples.len() < 3 && ops.len() >= 3 {
+            rep.samples.push(json!({"ops": ops, "final_observation": e.obs}));
+        }
+    }
+    let _ = &g.obs_of;
+    rep
+}
+
+pub fn replay_cmd(args: &[String]) {
+    let model = get_arg(args, "--model").expect("--model");
+    let graph = get_arg(args, "--graph").expect("--graph");
+    let out = get_arg(args, "--out").expect("--out");
+    let g = read_graph(&graph);
+    let mut target: Box<dyn Target> = match model.as_str() {
+        "mapping" => Box::new(crate::targets::MappingTarget::new(&g_ids(args))),
+        "pool" => Box::new(crate::targets::PoolTarget::new()),
+        "amo" => Box::new(crate::targets::AmoTarget::new()),
+        "cache" => Box::new(crate::targets::CacheTarget::new(&get_arg(args, "--universe").expect("--universe"))),
+        _ => panic!("unknown model {model}"),
+    };
+    let quiet = has_flag(args, "--quiet");
+    let rep = replay(&g, target.as_mut(), 5);
+    let n_bad = rep.mismatches.len();
+    let shown: Vec<&Value> = rep.mismatches.iter().filter(|v| !v.is_null()).collect();
+    let res = json!({
+        "model": model, "states": rep.states, "edges": rep.edges, "ops_executed": rep.ops_executed,
+        "mismatches": n_bad, "first": shown, "samples": rep.samples,
+    });
+    std::fs::write(&out, serde_json::to_string(&res).unwrap()).unwrap();
+    if !quiet {
+        println!("{}", json!({"states": rep.states, "edges": rep.edges, "mismatches": n_bad}));
+    }
+}
+
+fn g_ids(args: &[String]) -> Vec<u32> {
+    get_arg(args, "--ids")
+        .expect("--ids")
+        .split(',')
+        .map(|s| s.parse().unwrap())
+        .collect()
 }
